@@ -32,6 +32,8 @@ CLAIMS = {
          "trusted: stub transport with deep-copied messages, quiescence detection from goroutine stacks, gossiper-list decoding in the driver, TLC; the 20 s flash window does not expire within a run"),
  "C12": ("gossip", "model_checking", "as C11 with an adversarial relay at different positions that sends known items with lists assembled from garbage, its own key under other addresses, and honest entries lifted from other messages; TLC checks that only valid entries count (a node skips processing / is skipped only on its own valid signature for this item) and that every honest node with an honest path to the origin is reached; the forged lists are replayed against the real handlers and each delivery is judged by TLC",
          "as C11; forged ITEMS (a hash announced with corrupted content, which poisons the flash memory) are outside this property's quantifier over lists - see DESIGN.md F14"),
+ "C16": ("notary", "model_checking", "TLC explores Notary.tla - propose / confirm / reject / challenge / waiting / history / balance / saved requests by an honest issuer, an honest receiver and a third key, with the form in which the signed bytes are presented (as issued or re-split), challenge expiry, the read throttle, and handlers split between cache removal and ledger call - for: contracts sealed only through an act of the receiver (modulo the TLA+ signature of known finding F11), at most once, transfers never parked; TLC-simulated and directed call sequences incl. bursts of identical concurrent requests are executed on the real server (real ledger, cache, flash, challenge store) and TLC judges every reply and the observed cache / ledger content",
+         "trusted: handlers are called as Go methods (no TLS/gRPC), challenge expiry by sleeping past a 1 s longevity, TLC"),
 }
 NA = {
  "C19": "encode/decode fidelity of third-party codecs: no state, interleaving or case analysis in this repository to specify; a TLA+ model of encode-then-decode is the identity function (DESIGN.md section 8)",
@@ -53,6 +55,8 @@ m = {"version": 1, "setup_cmd": "./check setup",
          "serves_properties": ["C20"], "kind_free_text": "TLA+ case analysis of reading the encrypted wallet file; every enumerated fault executed on the real code, outcomes judged by TLC"},
         {"name": "gossip", "path": "specs/GossipNet.tla specs/GossipNetMC.tla specs/GossipNetGen.tla specs/GossipNetTrace.tla harness/cmd/drive/gossipdrv.go runner/gossipchk.py",
          "serves_properties": ["C11", "C12"], "kind_free_text": "TLA+ specification of gossip about gossip incl. adversarial relays; TLC over all small topologies; replay on a virtual network of real gossipers; TLC trace validation"},
+        {"name": "notary", "path": "specs/Notary.tla specs/NotaryMC.tla specs/NotaryGen.tla specs/NotaryTrace.tla harness/cmd/drive/notarydrv.go runner/notarychk.py",
+         "serves_properties": ["C16"], "kind_free_text": "TLA+ specification of the notary API's effects; TLC; call sequences replayed on the real server; TLC trace validation"},
         {"name": "locks", "path": "specs/WalkLocks.tla specs/WalkLocksMC.tla specs/WalkLocksTrace.tla harness/cmd/drive/locks.go runner/locks.py",
          "serves_properties": ["C08"], "kind_free_text": "explicit TLA+ specification of locks, walker goroutines and channels; TLC safety + liveness; real-code fault enumeration judged by TLC"}],
      "checks": [], "not_applicable": [], "notes": "see DESIGN.md; known findings in known_findings.json"}
